@@ -10,14 +10,15 @@ from fractions import Fraction
 import numpy as np
 from common import *
 
-IMPORTS = ("From CV Require Import Base.Cmp Base.QcLin Model.C17_TP Model.C17_TPR. "
+IMPORTS = ("From CV Require Import Base.Cmp Base.QcLin Model.C17_TP Model.C17_TPR Model.C17_More. "
            "From Coq Require Import QArith Qcanon Reals List String. Import ListNotations. "
            "From Interval Require Import Tactic.")
 RULE = ("every test problem x option lattice at small dim: Deconvolution1D (5 BC x custom integer PSF symmetric/asymmetric/"
         "even/longer-than-signal + Gauss/Moffat/Defocus x PSF_size parity x PSF_param, gaussian/scaledgaussian noise, custom prior, "
         "string phantoms), legacy circulant (custom + gauss/sinc/vonMises, refusals), Deconvolution2D (5 BC x integer PSFs 1..5 "
         "square/asymmetric/non-square + shipped PSFs), Abel1D, Poisson1D, Heat1D (field types, maps, observation maps, SNR), "
-        "WangCubic; scripted normals 0 / unit / dyadic; distinct = distinct (problem spec, observable); trivial = refusals and "
+        "WangCubic; string phantoms as formulas; scale sweeps 2^-30..2^24 (relative comparisons); declaration styles (int dtype, views, Fortran order, "
+        "CUQIarray, numpy scalars); keep-alive re-reads after evaluations; scripted normals 0 / unit / dyadic; distinct = distinct (problem spec, observable); trivial = refusals and "
         "oracle-verdict carrier cases")
 
 TOL = Fraction(1, 10 ** 9)
@@ -25,6 +26,7 @@ SIG_T = "Deconvolution1D.forward|transposed-operator"
 SIG_L = "_getCirculantMatrix|custom-PSF:transposed-operator"
 SIG_D = "Defocus-PSF|disc-off-centre"
 SIG_D0 = "Defocus-PSF|param-0:IndexError"
+SIG_PG = "Poisson1D.__init__|range-grid-ignores-endpoint"
 
 # ------------------------------------------------------------------------------------------------
 # encoders
@@ -73,6 +75,12 @@ def is_int(v):
 def close(a, b, tol=1e-9):
     a, b = np.asarray(a, dtype=float), np.asarray(b, dtype=float)
     return a.shape == b.shape and bool(np.all(np.abs(a - b) <= tol * (1 + np.abs(b))))
+
+
+def rclose(a, b, tol=1e-9):
+    """scale-free: |a_i - b_i| <= tol * max_j |b_j|"""
+    a, b = np.asarray(a, dtype=float), np.asarray(b, dtype=float)
+    return a.shape == b.shape and bool(np.all(np.abs(a - b) <= tol * np.max(np.abs(b)))) if b.size else a.shape == b.shape
 
 
 BC1 = {"zero": ("constant", "BCzero"), "periodic": ("wrap", "BCwrap"), "nearest": ("nearest", "BCnearest"),
@@ -229,6 +237,9 @@ def probe_state(force=False):
         _STATE["defocus_fixed"] = bool(np.allclose(P, [0, 1 / 3, 1 / 3, 1 / 3, 0]))
         L = dense(Deconvolution1D(dim=6, PSF=np.array([1., 2, 3, 4, 5, 6]), use_legacy=True, phantom=np.arange(6.)).model.get_matrix())
         _STATE["legacy_fixed"] = bool(np.array_equal(L[:, 3], [1, 2, 3, 4, 5, 6]))
+        from cuqi.testproblem import Poisson1D
+        with ScriptedRandom(seed=0):
+            _STATE["pgrid_fixed"] = bool(Poisson1D(dim=3, endpoint=2, source=lambda xs: 1 + 0 * xs).model.range_geometry.grid[0] == 1.0)
     return _STATE
 
 
@@ -285,16 +296,34 @@ def construct(spec):
         with warnings.catch_warnings():
             warnings.simplefilter("ignore")
             with ScriptedRandom(seed=0, script=d):
+                sty = spec.get("style", {})
+                if kind in ("deconv1d", "deconv2d"):
+                    for key in ("PSF", "phantom"):
+                        if key in kw and not isinstance(kw[key], str):
+                            a = np.array(kw[key], dtype=(int if sty.get(key) == "int" else float))
+                            if sty.get(key) == "fortran":
+                                a = np.asfortranarray(a)
+                            if sty.get(key) == "view":
+                                big = np.zeros(tuple(2 * d_ for d_ in a.shape)); big[...] = 7
+                                v = big[tuple(slice(None, None, 2) for _ in a.shape)]; v[...] = a; a = v
+                            if sty.get(key) == "cuqiarray" and a.ndim == 1:
+                                a = cuqi.array.CUQIarray(a, geometry=cuqi.geometry.Continuous1D(len(a)))
+                            kw[key] = a
+                            spec.setdefault("_inputs", {})[key] = (a, np.array(a, copy=True))
+                    if sty.get("dim") == "np":
+                        kw["dim"] = np.int64(kw["dim"])
+                    if sty.get("noise_std") == "np":
+                        kw["noise_std"] = np.float64(kw["noise_std"])
                 if kind == "deconv1d":
                     for key in ("PSF", "phantom"):
-                        if key in kw:
+                        if key in kw and isinstance(kw[key], list):
                             kw[key] = arr_or_str(kw[key])
                     if "prior" in kw:
                         kw["prior"] = mk_prior(cuqi, kw["prior"], kw.get("dim", 128))
                     tp = TP.Deconvolution1D(**kw)
                 elif kind == "deconv2d":
                     for key in ("PSF", "phantom"):
-                        if key in kw:
+                        if key in kw and isinstance(kw[key], list):
                             kw[key] = arr_or_str(kw[key])
                     if "prior" in kw:
                         n = kw.get("dim", 128)
@@ -362,13 +391,15 @@ def common_cases(spec, tp, d, cell, stated, info_expected):
     rule, val = stated
     m, dd, info = tp.get_components()
     L, P = tp.likelihood, tp.posterior
+    snap = {nm: (None if a is None else np.array(a, dtype=float, copy=True)) for nm, a in
+            (("data", tp.data), ("exactData", tp.exactData), ("exactSolution", tp.exactSolution))}
     # ---------------- data = exact + stated std * z --------------------------------------------
     s2 = None
     if rule != "given":
         exact, data, z = fl(tp.exactData), fl(tp.data), [float(v) for v in spec["z"]]
         fail = None
         if rule == "std":
-            expr = "check_data_gaussian tol9 %s %s %s %s" % (cqc(val), cqcvec(exact), cqcvec(z), cqcvec(data))
+            expr = "check_data_gaussian%s tol9 %s %s %s %s" % ("_rel" if spec.get("scale") else "", cqc(val), cqcvec(exact), cqcvec(z), cqcvec(data))
             want = [e + abs(val) * zz for e, zz in zip(exact, z)]
             s2 = val * val
         elif rule == "scaled":
@@ -377,17 +408,18 @@ def common_cases(spec, tp, d, cell, stated, info_expected):
             s2 = [(e * val) ** 2 for e in exact]
         else:
             sig_ = d.sigma
-            expr = "check_data_snr tol9 %s %s %s %s %s" % (cqc(val), cqc(sig_), cqcvec(exact), cqcvec(z), cqcvec(data))
+            expr = "check_data_snr%s tol9 %s %s %s %s %s" % ("_rel" if spec.get("scale") else "", cqc(val), cqc(sig_), cqcvec(exact), cqcvec(z), cqcvec(data))
             nrm = math.sqrt(sum(e * e for e in exact))
             want = [e + nrm / val * zz for e, zz in zip(exact, z)]
             s2 = sig_ * sig_
-            if not close(sig_, nrm / val):
+            if not rclose(sig_, nrm / val):
                 fail = "noise std handed to numpy is %r, stated rule ||exactData||/SNR = %r" % (sig_, nrm / val)
-        if fail is None and not close(data, want):
+        if fail is None and not rclose(data, want):
             fail = "data - exactData = %s but stated std x scripted normal = %s" % (
                 [a - b for a, b in zip(data, exact)], [a - b for a, b in zip(want, exact)])
         cov = np.asarray(L.distribution.cov, dtype=float).ravel()
-        if fail is None and not close(cov, np.asarray(s2, dtype=float).ravel()):
+        if fail is None and not (cov.shape == np.asarray(s2, dtype=float).ravel().shape and
+                                 bool(np.all(np.abs(cov - np.asarray(s2, dtype=float).ravel()) <= 1e-9 * np.abs(np.asarray(s2, dtype=float).ravel())))):
             fail = "likelihood covariance %s is not the stated noise variance %s" % (cov, s2)
         cases.append(Case(expr=expr, meta=dict(spec, obs="data"), cell=cell + "/data", kind="EXACT",
                           trivial=all(v == 0 for v in z)))
@@ -413,6 +445,13 @@ def common_cases(spec, tp, d, cell, stated, info_expected):
         checks += [("exactSolution.geometry is model.domain_geometry", tp.exactSolution.geometry is m.domain_geometry),
                    ("exactData.geometry is model.range_geometry", tp.exactData.geometry is m.range_geometry),
                    ("exactData == model.forward(exactSolution)", close(fl(tp.exactData), fl(m.forward(tp.exactSolution))))]
+    # data / range geometry: same function representation (grid, dimension), whatever the class
+    if tp.exactData is not None:
+        gd, gr = getattr(dd, "geometry", None), m.range_geometry
+        same_grid = gd is not None and gd.par_dim == gr.par_dim and (
+            getattr(gd, "grid", None) is None or getattr(gr, "grid", None) is None or
+            np.array_equal(np.asarray(gd.grid, dtype=float), np.asarray(gr.grid, dtype=float)))
+        checks.append(("data.geometry describes the same grid as model.range_geometry", same_grid))
     bad = [nm for nm, ok in checks if not ok]
     if bad:
         fail = "handed-out objects are inconsistent: " + "; ".join(bad) + (" (infoString=%r, expected %r)" % (getattr(tp, "infoString", None), info_expected) if "infoString" in bad else "")
@@ -443,7 +482,38 @@ def common_cases(spec, tp, d, cell, stated, info_expected):
                 cases.append(verdict_case(dict(spec, obs="logd"), cell + "/logd",
                                           "posterior.logd(%s) = %r but Gaussian log-likelihood of the stated noise + log-prior = %r" % (x, v, want),
                                           "%s|posterior-logd" % spec["tp"]))
+    # ---------------- keep-alive: nothing handed out earlier has changed after all the evaluations above -----------
+    x0 = np.zeros(m.domain_dim) + 0.5
+    with warnings.catch_warnings():
+        warnings.simplefilter("ignore")
+        try:
+            m.forward(x0); L.logd(x0); P.logd(x0); tp.prior.logd(x0)
+            if hasattr(m, "adjoint"):
+                m.adjoint(np.ones(m.range_dim))
+            if hasattr(P, "gradient") and spec["tp"] != "heat" and spec["tp"] != "poisson":
+                P.gradient(x0)
+        except (NotImplementedError, TypeError, ValueError, AttributeError):
+            pass
+    m2, dd2, info2 = tp.get_components()
+    changed = [nm for nm, a in (("data", tp.data), ("exactData", tp.exactData), ("exactSolution", tp.exactSolution))
+               if (a is None) != (snap[nm] is None) or (a is not None and not np.array_equal(np.array(a, dtype=float), snap[nm]))]
+    if m2 is not m or dd2 is not dd:
+        changed.append("get_components() hands out other objects the second time")
+    for nm, ref in spec.get("_inputs", {}).items():
+        if not np.array_equal(ref[0], ref[1]):
+            changed.append("input array %s was modified by the constructor or by an evaluation" % nm)
+    cases.append(Case(expr=cbool(not changed), meta=dict(spec_clean(spec), obs="keepalive"), cell=cell + "/keepalive", kind="DECISION", trivial=True))
+    if changed:
+        cases.append(verdict_case(dict(spec_clean(spec), obs="keepalive"), cell + "/keepalive",
+                                  "after forward/adjoint/logd/gradient evaluations these changed: " + "; ".join(changed), "%s|keepalive" % spec["tp"]))
+    for c in cases:
+        c.meta = spec_clean(c.meta)
+        c.key = ""; c.__post_init__()
     return cases
+
+
+def spec_clean(meta):
+    return {k: v for k, v in meta.items() if not k.startswith("_")}
 
 
 # ------------------------------------------------------------------------------------------------
@@ -551,6 +621,7 @@ def deconv1d_cases(spec, cell):
     # ---- independent oracle: the documented operator, column by column
     ref = ref_matrix1(n, docP, mode)
     detail, sig = None, ""
+    close = rclose if spec.get("scale") else globals()["close"]
     if not close(A, ref):
         sig = "Deconvolution1D.forward|operator-mismatch"
         cand = {SIG_T: transpose(ref)}
@@ -582,7 +653,7 @@ def deconv1d_cases(spec, cell):
         else:   # gauss: the PSF the shipped generator returns (its entries are enclosed over R by the PSF cells)
             g, _ = T._GaussPSF_1D(shipped[1], shipped[2])
             Pt = cqcvec(fl(g))
-        body = "check_deconv1_q tol9 %s %s P %s %s %s %s" % (cbool(st["asm_fixed"]), bcn, cnat(n), cqcmat(fl2(A)), cqcvec(x), cqcvec(Ax))
+        body = ("check_deconv1_qr" if spec.get("scale") else "check_deconv1_q") + " tol9 %s %s P %s %s %s %s" % (cbool(st["asm_fixed"]), bcn, cnat(n), cqcmat(fl2(A)), cqcvec(x), cqcvec(Ax))
         if shipped is not None and shipped[0] in ("moffat", "defocus"):
             expr = "match %s with Some P => %s | None => false end" % (Pt, body)
         else:
@@ -725,6 +796,7 @@ def deconv2d_cases(spec, cell):
     Bimg = np.asarray(tp.model.adjoint(img.ravel()), dtype=float).reshape(n, n)
     ref = ref_conv2(img.tolist(), docP, mode)
     detail, sig = None, ""
+    close = rclose if spec.get("scale") else globals()["close"]
     if not close(Fimg, ref):
         sig = "Deconvolution2D.forward|operator-mismatch"
         if isinstance(P, str) and P.lower() == "defocus":
@@ -744,9 +816,9 @@ def deconv2d_cases(spec, cell):
         cases.append(Case(expr="check_backward2_zq tol9 %s %s %s %s" % (bcn, czmat(usedP), czmat(img.tolist()), cqcmat(fl2(Bimg))),
                           meta=dict(spec, obs="adjoint-code"), cell=cell + "/backward", kind="EXACT"))
     else:
-        cases.append(Case(expr="check_deconv2_q tol9 %s %s %s %s" % (bcn, cqcmat(usedP), cqcmat(img.tolist()), cqcmat(fl2(Fimg))),
+        cases.append(Case(expr=("check_deconv2_qr" if spec.get("scale") else "check_deconv2_q") + " tol9 %s %s %s %s" % (bcn, cqcmat(usedP), cqcmat(img.tolist()), cqcmat(fl2(Fimg))),
                           meta=dict(spec, obs="forward"), cell=cell + "/forward", kind="EXACT"))
-    cases.append(Case(expr="check_deconv2_q tol9 %s %s %s %s" % (bcn, cqcmat(usedP), cqcmat(fl2(X)), cqcmat(fl2(Y))),
+    cases.append(Case(expr=("check_deconv2_qr" if spec.get("scale") else "check_deconv2_q") + " tol9 %s %s %s %s" % (bcn, cqcmat(usedP), cqcmat(fl2(X)), cqcmat(fl2(Y))),
                       meta=dict(spec, obs="exactData"), cell=cell + "/exactData", kind="EXACT"))
     if detail:
         cases.append(verdict_case(dict(spec, obs="forward"), cell + "/forward", detail, sig))
@@ -765,7 +837,8 @@ def abel_cases(spec, cell):
     if tp is None:
         raise RuntimeError("Abel1D refused: %s %r" % (err, spec))
     A = dense(tp.model._matrix) if hasattr(tp.model, "_matrix") and tp.model._matrix is not None else dense(tp.model.get_matrix())
-    cases = [Case(expr="check_abel tol9 %s %s %s" % (cnat(n), cqc(ep), cqcmat(fl2(A))), meta=dict(spec, obs="operator"), cell=cell + "/operator", kind="EXACT")]
+    close = rclose if spec.get("scale") else globals()["close"]
+    cases = [Case(expr=("check_abel_r" if spec.get("scale") else "check_abel") + " tol9 %s %s %s" % (cnat(n), cqc(ep), cqcmat(fl2(A))), meta=dict(spec, obs="operator"), cell=cell + "/operator", kind="EXACT")]
     h = ep / n
     ref = [[(h / math.sqrt((i - j + 0.5) * h)) if j <= i else 0.0 for j in range(n)] for i in range(n)]
     if not close(A, ref):
@@ -810,9 +883,19 @@ def poisson_cases(spec, cell):
         cases.append(Case(expr=cbool(len(y) == len(idx)), meta=dict(spec, obs="obsmap"), cell=cell + "/obsmap", kind="DECISION"))
     else:
         want = list(u)
-        cases.append(Case(expr="check_poisson tol6 %s %s %s %s %s" % (cnat(N), cqc(Fraction(ep).limit_denominator(64) / N), cqcvec(kappa), cqcvec(y), cqcvec(rhs)),
-                          meta=dict(spec, obs="residual"), cell=cell + "/residual", kind="EXACT"))
-    if not close(y, want, 1e-8):
+        if not spec.get("scale"):
+            cases.append(Case(expr="check_poisson tol6 %s %s %s %s %s" % (cnat(N), cqc(Fraction(ep).limit_denominator(64) / N), cqcvec(kappa), cqcvec(y), cqcvec(rhs)),
+                              meta=dict(spec, obs="residual"), cell=cell + "/residual", kind="EXACT"))
+        srcn = {"one": "SrcOne", "lin": "SrcLin", "quad": "SrcQuad"}[kw.get("source", "one")]
+        cases.append(Case(expr="check_poisson_full tol6 %s %s %s %s %s" % (srcn, cnat(N), cqc(Fraction(ep)), cqcvec(kappa), cqcvec(y)),
+                          meta=dict(spec, obs="equation"), cell=cell + "/equation", kind="EXACT"))
+        cases.append(Case(expr="check_poisson_grid tol9 %s %s %s %s" % (cbool(probe_state()["pgrid_fixed"]), cnat(N), cqc(Fraction(ep)), cqcvec(fl(tp.model.range_geometry.grid))),
+                          meta=dict(spec, obs="grid"), cell=cell + "/grid", kind="EXACT"))
+        if not rclose(fl(tp.model.range_geometry.grid), grid):
+            cases.append(verdict_case(dict(spec, obs="grid"), cell + "/grid",
+                                      "Poisson1D(dim=%d, endpoint=%r): the published range/solution grid %s is not the node grid %s on which the source term is sampled (first node 1/(dim-1) instead of endpoint/(dim-1))"
+                                      % (n, ep, fl(tp.model.range_geometry.grid), grid), SIG_PG))
+    if not rclose(y, want, 1e-8):
         cases.append(verdict_case(spec, cell, "exactData %s does not solve the documented discrete Poisson equation (observed nodes): %s" % (y, want), "Poisson1D|exactData"))
     cases += common_cases(spec, tp, d, cell, ("snr", float(kw.get("SNR", 200))), None)
     return cases
@@ -837,7 +920,15 @@ def heat_cases(spec, cell):
         g = np.array([dx * (i + 1) for i in range(N)]); sel = OBSMAPS[kw["observation_grid_map"]](g)
         u = np.array([u[int(np.argmin(abs(g - s)))] for s in sel])
     cases.append(Case(expr=cbool(len(y) == len(u)), meta=dict(spec, obs="shape"), cell=cell + "/shape", kind="DECISION", trivial=True))
-    if not close(y, u, 1e-8):
+    nsteps = len(tp.model.pde.time_steps) - 1
+    u0 = fl(tp.exactSolution)
+    fn = "check_heat_every2" if "observation_grid_map" in kw else "check_heat"
+    cases.append(Case(expr="%s tol9 %s %s %s %s %s %s" % (fn, cnat(N), cqc(Fraction(ep)), cqc(Fraction(T) if spec.get("scale") else Fraction(T).limit_denominator(1000)), cnat(nsteps), cqcvec(u0), cqcvec(y)),
+                      meta=dict(spec, obs="solution"), cell=cell + "/solution", kind="EXACT"))
+    gridref = [dx * (i + 1) for i in range(N)]
+    if not rclose(np.asarray(tp.model.domain_geometry.grid, dtype=float), gridref) or nsteps != steps:
+        cases.append(verdict_case(spec, cell, "Heat1D grid %s / %d time steps, documented nodes %s / %d steps" % (tp.model.domain_geometry.grid, nsteps, gridref, steps), "Heat1D|grid"))
+    if not rclose(y, u, 1e-8):
         cases.append(verdict_case(spec, cell, "exactData %s is not the forward-Euler solution of the heat equation at max_time: %s" % (y, u.tolist()), "Heat1D|exactData"))
     cases += common_cases(spec, tp, d, cell, ("snr", float(kw.get("SNR", 200))),
                           "Noise type: Additive i.i.d. noise with mean zero and signal to noise ratio: %s" % kw.get("SNR", 200))
@@ -868,6 +959,121 @@ def cubic_cases(spec, cell):
         cases.append(verdict_case(spec, cell, "data handed out is not the data given", "WangCubic|data"))
     cases += common_cases(spec, tp, d, cell, ("given", float(kw.get("noise_std", 1))),
                           "Noise type: Additive Gaussian with std: {}".format(kw.get("noise_std", 1)))
+    return cases
+
+
+# ------------------------------------------------------------------------------------------------
+# string phantoms (_getExactSolution) as formulas
+# ------------------------------------------------------------------------------------------------
+def py_round(q):
+    q = Fraction(q); f = q.numerator // q.denominator; d = q - f
+    return f if d < Fraction(1, 2) else f + 1 if d > Fraction(1, 2) else (f if f % 2 == 0 else f + 1)
+
+
+PC = ([Fraction(1, 10), Fraction(15, 100), Fraction(2, 10), Fraction(25, 100), Fraction(3, 10), Fraction(6, 10)], [0, 2, 3, 2, 0, 1, 0])
+SKY = ([Fraction(k, 100) for k in (10, 15, 20, 25, 35, 38, 45, 55, 75, 80)], [0, 1.5, 0, 1.3, 0, 0.75, 0, 0.25, 0, 1, 0])
+
+
+def pw_safe(breaks, dim):
+    return all(abs((Fraction(i, dim - 1) if dim > 1 else Fraction(0)) - b) > Fraction(1, 2 ** 40) for i in range(dim) for b in breaks)
+
+
+def doc_phantom(kind, dim, param):
+    """the documented phantoms, plain Python"""
+    t = [(-1 + 2 * i / (dim - 1)) if dim > 1 else -1.0 for i in range(dim)]
+    if kind == "gauss":
+        p = 5 if param is None else param
+        return [math.exp(-(p * tt) ** 2) for tt in t]
+    if kind == "sinc":
+        p = 5 if param is None else param
+        return [1.0 if p * tt == 0 else math.sin(math.pi * p * tt) / (math.pi * p * tt) for tt in t]
+    if kind == "vonmises":
+        p = 5 if param is None else param
+        v = [math.exp(math.cos(math.pi * tt)) for tt in t]
+        return [(a / max(v)) ** p for a in v]
+    if kind == "bumps":
+        h = math.pi / dim
+        return [math.exp(-12 * (-math.pi / 2 + (i + 0.5) * h - 0.8) ** 2) + 0.5 * math.exp(-5 * (-math.pi / 2 + (i + 0.5) * h + 0.5) ** 2) for i in range(dim)]
+    if kind == "derivgauss":
+        p = 5 if param is None else param
+        g = [math.exp(-(p * (-1 + 2 * i / dim)) ** 2) for i in range(dim + 1)]
+        dd_ = [g[i + 1] - g[i] for i in range(dim)]
+        return [a / max(dd_) for a in dd_]
+    if kind in ("square", "hat"):
+        p = 15 if param is None else param
+        dimh, w = py_round(Fraction(dim, 2)), py_round(Fraction(dim) / Fraction(p))
+        x = [0.0] * dim
+        if kind == "square":
+            for i in range(max(dimh - w, 0), min(dimh + w, dim)):
+                x[i] = 1.0
+            return x
+        if w == 0:
+            return None
+        for k_ in range(w + 1):
+            x[dimh - w - 1 + k_] = k_ / w
+        for k_ in range(w + 1):
+            x[dimh - 1 + k_] = (w - k_) / w
+        return x
+    if kind in ("pc", "skyscraper"):
+        br, vals = PC if kind == "pc" else SKY
+        out = []
+        for i in range(dim):
+            xx = Fraction(i, dim - 1) if dim > 1 else Fraction(0)
+            out.append(float(vals[sum(1 for b in br if b <= xx)]))
+        return out
+    raise ValueError(kind)
+
+
+def phantom_cases(kind, dim, param):
+    spec = {"tp": "phantom", "kind": kind, "dim": dim, "param": param}
+    cell = "phantom/" + kind
+    kw = {"dim": dim, "PSF": [1.0], "BC": "zero", "phantom": kind, "noise_std": 0.5}
+    if param is not None:
+        kw["phantom_param"] = param
+    with np.errstate(all="ignore"):
+        tp, d, err = construct({"tp": "deconv1d", "kw": kw, "z": [0.0] * dim})
+    if tp is None:
+        raise RuntimeError("phantom %s refused: %s" % (kind, err))
+    x = np.asarray(tp.exactSolution, dtype=float)
+    obs = None if not np.all(np.isfinite(x)) else fl(x)
+    doc = doc_phantom(kind, dim, param)
+    cases = []
+    detail = None
+    if (obs is None) != (doc is None) or (obs is not None and not close(obs, doc)):
+        detail = "phantom %s (dim %d, param %r) = %s, documented function sampled on the mesh: %s" % (kind, dim, param, obs, doc)
+    p = param
+    if kind in ("square", "hat"):
+        p = 15 if param is None else param
+        mod = "(Some (phantom_square %s %s))" % (cnat(dim), cq(Fraction(p))) if kind == "square" else "(phantom_hat %s %s)" % (cnat(dim), cq(Fraction(p)))
+        cases.append(Case(expr="check_phantom tol9 %s %s" % (mod, copt(obs, cqcvec)), meta=spec, cell=cell, kind="EXACT"))
+    elif kind in ("pc", "skyscraper"):
+        nm = "pc" if kind == "pc" else "sky"
+        cases.append(Case(expr="pw_safe %s_breaks %s && check_phantom tol9 (Some (phantom_pw %s_breaks %s_vals %s)) %s" % (nm, cnat(dim), nm, nm, cnat(dim), copt(obs, cqcvec)),
+                          meta=spec, cell=cell, kind="EXACT"))
+    else:
+        p = 5 if param is None else param
+        T = [Fraction(-1) + Fraction(2 * i, dim - 1) if dim > 1 else Fraction(-1) for i in range(dim)]
+        if kind == "vonmises":
+            tm = min(T, key=abs)
+        if kind == "derivgauss":
+            T1 = [Fraction(-1) + Fraction(2 * i, dim) for i in range(dim + 1)]
+            g = [math.exp(-(p * float(tt)) ** 2) for tt in T1]
+            j = max(range(dim), key=lambda i: g[i + 1] - g[i])
+        for i in range(dim):
+            if kind == "gauss":
+                mod = "(ph_gauss_R %s %s)" % (cr(p), cr(T[i]))
+            elif kind == "sinc":
+                mod = "(IZR 1)" if T[i] == 0 else "(ph_sinc_R %s %s)" % (cr(p), cr(T[i]))
+            elif kind == "vonmises":
+                mod = "(ph_vonmises_R %s %s %s)" % (cr(p), cr(T[i]), cr(tm))
+            elif kind == "bumps":
+                mod = "(ph_bumps_R %s %s)" % (cr(dim), cr(Fraction(2 * i + 1, 2)))
+            else:
+                mod = "(ph_dgauss_R %s %s %s %s %s)" % (cr(p), cr(T1[i]), cr(T1[i + 1]), cr(T1[j]), cr(T1[j + 1]))
+            e, tac = encl(mod, obs[i])
+            cases.append(Case(expr=e, tac=tac, kind="ENCLOSURE", meta=dict(spec, entry=i), cell=cell))
+    if detail:
+        cases.append(verdict_case(spec, cell, detail, "_getExactSolution|%s" % kind))
     return cases
 
 
@@ -955,8 +1161,27 @@ def specs(ctx):
                     kw["prior"] = {"mean": dyvec(rng, n), "cov": rng.choice([0.25, 4.0, 1.0])}
                 out.append(({"tp": "deconv1d", "kw": kw, "z": zvec(rng, n, k), "x": dyvec(rng, n)},
                             "Deconvolution1D/%s/%s" % (bc, kind), "deconv1d"))
+    # scale sweep (relative comparisons) and declaration styles
+    for e_ in [-30, -12, 9, 24]:
+        for bc in (["zero", "periodic", "nearest", "reflect", "mirror"] if ctx.thorough else [rng.choice(["zero", "nearest"]), rng.choice(["periodic", "reflect", "mirror"])]):
+            k += 1
+            n = rng.choice([4, 5, 6])
+            sc = 2.0 ** e_
+            P = [sc * v for v in psf1("asym3", n)["PSF"]]
+            kw = {"dim": n, "BC": bc, "PSF": P, "phantom": [rng.randint(1, 5) * (2.0 ** rng.choice([0, e_])) for _ in range(n)],
+                  "noise_std": sc * rng.choice([0.5, 2.0]) * (2.0 ** rng.choice([0, e_]))}
+            out.append(({"tp": "deconv1d", "kw": kw, "scale": True, "z": zvec(rng, n, k), "x": dyvec(rng, n)}, "Deconvolution1D/scale/2^%d" % e_, "deconv1d"))
+    for sty in [{"PSF": "int"}, {"phantom": "int"}, {"PSF": "int", "phantom": "int"}, {"phantom": "cuqiarray"}, {"phantom": "view"}, {"PSF": "view"},
+                {"dim": "np"}, {"noise_std": "np"}]:
+        k += 1
+        n = rng.choice([5, 6])
+        bc = rng.choice(["zero", "periodic", "nearest", "reflect", "mirror"])
+        kw = {"dim": n, "BC": bc, "phantom": ivec(rng, n), "noise_std": STD[k % 4]}
+        kw.update(psf1(rng.choice(["asym3", "even2", "asym5"]), n))
+        out.append(({"tp": "deconv1d", "kw": kw, "style": sty, "z": zvec(rng, n, k), "x": dyvec(rng, n)},
+                    "Deconvolution1D/style/%s" % "+".join("%s=%s" % kv for kv in sorted(sty.items())), "deconv1d"))
     # refusals
-    for kw, refused in [({"dim": 6, "BC": "neumann"}, True), ({"dim": 6, "PSF": "sinc"}, True), ({"dim": 6, "PSF": [[1, 2], [3, 4]]}, True),
+    for kw, refused in [({"dim": 6, "BC": "neumann"}, True), ({"dim": 6, "PSF": 7}, True), ({"dim": 6, "PSF": "sinc"}, True), ({"dim": 6, "PSF": [[1, 2], [3, 4]]}, True),
                         ({"dim": 6, "phantom": [1, 2, 3, 4, 5]}, True), ({"dim": 4, "phantom": [[1, 2], [3, 4]]}, True),
                         ({"dim": 6, "noise_type": "poisson"}, True), ({"dim": 6, "use_legacy": True, "BC": "zero"}, True),
                         ({"dim": 6, "use_legacy": True, "PSF_size": 3}, True), ({"dim": 6, "use_legacy": True, "PSF": "moffat"}, True),
@@ -1021,6 +1246,22 @@ def specs(ctx):
                     kw["prior"] = {"mean": dyvec(rng, n * n), "cov": rng.choice([0.25, 4.0])}
                 out.append(({"tp": "deconv2d", "kw": kw, "img": [ivec(rng, n) for _ in range(n)], "z": zvec(rng, n * n, k), "x": dyvec(rng, n * n)},
                             "Deconvolution2D/%s/%s" % (bc, kind), "deconv2d"))
+    for e_ in [-30, 12]:
+        for bc in ["zero", "periodic", "nearest", "neumann", "mirror"]:
+            k += 1
+            n = 3
+            sc = 2.0 ** e_
+            P = [[sc * v for v in r] for r in psf2(rng.choice(["3x3asym", "2x2"]))]
+            kw = {"dim": n, "BC": bc, "PSF": P, "phantom": [[rng.randint(-4, 4) for _ in range(n)] for _ in range(n)], "noise_std": sc * 0.5}
+            out.append(({"tp": "deconv2d", "kw": kw, "scale": True, "img": [ivec(rng, n) for _ in range(n)], "z": zvec(rng, n * n, k), "x": dyvec(rng, n * n)},
+                        "Deconvolution2D/scale/2^%d" % e_, "deconv2d"))
+    for sty in [{"PSF": "int"}, {"PSF": "fortran"}, {"phantom": "view"}, {"phantom": "int", "PSF": "view"}]:
+        k += 1
+        n = 3
+        kw = {"dim": n, "BC": rng.choice(["zero", "periodic", "nearest", "neumann", "mirror"]), "PSF": psf2(rng.choice(["3x3asym", "2x2", "4x4"])),
+              "phantom": [[rng.randint(-4, 4) for _ in range(n)] for _ in range(n)], "noise_std": 0.5}
+        out.append(({"tp": "deconv2d", "kw": kw, "style": sty, "img": [ivec(rng, n) for _ in range(n)], "z": zvec(rng, n * n, k), "x": dyvec(rng, n * n)},
+                    "Deconvolution2D/style/%s" % "+".join("%s=%s" % kv for kv in sorted(sty.items())), "deconv2d"))
     for kw, refused in [({"dim": 3, "BC": "reflect"}, True), ({"dim": 3, "PSF": 3}, True), ({"dim": 3, "noise_type": "poisson", "PSF": [[1]], "phantom": [[1, 2, 3]] * 3}, True),
                         ({"dim": 3, "phantom": "no-such-phantom", "PSF": [[1]]}, True)]:
         out.append(({"tp": "deconv2d", "kw": kw, "z": [0.0] * 9}, "Deconvolution2D/refusals", "refusal:%d" % refused))
@@ -1041,7 +1282,18 @@ def specs(ctx):
             elif ft == "map":
                 kw["fmap"] = "affine"
             out.append(({"tp": "abel", "kw": kw, "geom": ft == "geom", "z": zvec(rng, n, k), "x": dyvec(rng, xd, 1, 8)}, "Abel1D/%s" % (ft or "default"), "abel"))
+    for e_ in [-20, -6, 10]:
+        k += 1
+        n = rng.choice([3, 4, 5])
+        out.append(({"tp": "abel", "kw": {"dim": n, "endpoint": 2.0 ** e_, "SNR": rng.choice([100, 8])}, "scale": True, "z": zvec(rng, n, k), "x": dyvec(rng, n, 1, 8)},
+                    "Abel1D/scale/2^%d" % e_, "abel"))
     # ---------------- Poisson1D ----------------
+    for e_ in [-10, -3, 6]:
+        k += 1
+        n = rng.choice([4, 5])
+        out.append(({"tp": "poisson", "kw": {"dim": n, "endpoint": 2.0 ** e_, "SNR": 200, "source": rng.choice(["one", "lin", "quad"]),
+                                             "exactSolution": [rng.randint(2, 12) / 4 * 2.0 ** rng.choice([0, e_]) for _ in range(n)]},
+                     "scale": True, "z": zvec(rng, n - 1, k), "x": dyvec(rng, n, 2, 8)}, "Poisson1D/scale/2^%d" % e_, "poisson"))
     for n in [3, 4, 5, 6]:
         for var in ["default", "source", "exact", "obsmap", "KL", "Step", "map"]:
             if not ctx.thorough and var not in ("default", "exact") and n not in (5,):
@@ -1088,6 +1340,12 @@ def specs(ctx):
                 kw["max_time"] = rng.choice([0.05, 0.1]); kw["endpoint"] = 1      # keeps at least one time step
             nobs = n if var != "obsmap" else len(range(0, n, 2))
             out.append(({"tp": "heat", "kw": kw, "z": zvec(rng, nobs, k), "x": dyvec(rng, xd)}, "Heat1D/%s" % var, "heat"))
+    for e_ in [-8, -2, 5]:
+        k += 1
+        n = rng.choice([3, 4])
+        out.append(({"tp": "heat", "kw": {"dim": n, "endpoint": 2.0 ** e_, "max_time": 0.2 * 4.0 ** e_, "SNR": 200,
+                                          "exactSolution": [rng.randint(1, 8) * 2.0 ** rng.choice([0, e_, -e_]) for _ in range(n)]},
+                     "scale": True, "z": zvec(rng, n, k), "x": dyvec(rng, n)}, "Heat1D/scale/2^%d" % e_, "heat"))
     # ---------------- WangCubic ----------------
     for var in ["default", "std", "data", "prior", "all"]:
         for _ in range(ctx.n(2, 8)):
@@ -1141,7 +1399,8 @@ def run(ctx):
         for spec, cell, h in specs(ctx):
             cs = handle(spec, cell, h)
             for c in cs:
-                c.meta = dict(c.meta, handler=h, cell=cell)
+                c.meta = dict(spec_clean(c.meta), handler=h, cell=cell)
+                c.key = ""; c.__post_init__()
             cases += cs
     # shipped PSF generators
     for kind in ["gauss", "moffat", "defocus"]:
@@ -1154,6 +1413,20 @@ def run(ctx):
                 if n <= 5:
                     for c in psf_cases(kind, n, param, two_d=True):
                         c.meta = dict(c.meta, handler="psf"); cases.append(c)
+    # string phantoms as formulas
+    for kind, params in [("gauss", [None, 2]), ("sinc", [None, 3]), ("vonmises", [None, 2]), ("bumps", [None]), ("derivgauss", [None, 3]),
+                         ("square", [None, 3, 4]), ("hat", [None, 3, 4]), ("pc", [None]), ("skyscraper", [None])]:
+        for param in params:
+            dims = {"pc": [1, 4, 8, 12, 14], "skyscraper": [4, 8, 12, 14, 18]}.get(kind, [2, 5, 6, 7, 8, 10] + ([16, 31] if kind in ("square", "hat") else []))
+            if kind in ("square", "hat") and param is not None:
+                dims = [d_ for d_ in dims if d_ >= 6]
+            if kind in ("pc", "skyscraper"):
+                dims = [d_ for d_ in dims if pw_safe((PC if kind == "pc" else SKY)[0], d_)]
+            if not ctx.thorough:
+                dims = dims[::2] + dims[-1:]
+            for dim in dims:
+                for c in phantom_cases(kind, dim, param):
+                    c.meta = dict(c.meta, handler="phantom"); cases.append(c)
     return Result(cases=cases, rule=RULE, extra={"tree_state": dict(_STATE)},
                   assumptions=["scipy.signal.fftconvolve equals the direct convolution and numpy.pad / scipy.ndimage.convolve1d follow their documented index rules (each exercised by every case)",
                                "numpy.random.normal(0, s, size) = s * standard normal; Gaussian.sample = mean + sqrt(cov) * randn (scripted)",
@@ -1171,6 +1444,8 @@ def _rerun(meta):
     cell = m.pop("cell", "replay")
     for kk in ("obs", "verdict", "observed", "entry"):
         m.pop(kk, None)
+    if h == "phantom" or m.get("tp") == "phantom":
+        return phantom_cases(m["kind"], m["dim"], m["param"])
     if h == "psf" or m.get("tp") in ("psf1d", "psf2d"):
         return psf_cases(m["kind"], m["n"], m["param"], two_d=(m["tp"] == "psf2d"))
     if h is None:
@@ -1200,6 +1475,7 @@ WITNESSES = {
     SIG_L: {"tp": "deconv1d", "kw": {"dim": 6, "PSF": [1, 2, 3, 4, 5, 6], "use_legacy": True, "phantom": [1, -2, 0, 3, 1, 1], "noise_std": 0.5},
             "z": [1, 0, -0.5, 0.25, 2, 0], "x": [0.5, 1, -1, 0, 0.25, 1], "handler": "legacy"},
     SIG_D: {"tp": "psf1d", "kind": "defocus", "n": 5, "param": 1, "handler": "psf"},
+    SIG_PG: {"tp": "poisson", "kw": {"dim": 3, "endpoint": 2, "SNR": 200, "source": "one"}, "z": [0.0, 1.0], "x": [2.0, 1.75, 0.5], "handler": "poisson"},
     SIG_D0: {"tp": "deconv1d", "kw": {"dim": 6, "PSF": "defocus", "PSF_size": 3, "PSF_param": 0, "phantom": [1, 2, 3, 4, 5, 6], "noise_std": 0.5},
              "z": [0.0] * 6, "handler": "deconv1d"},
 }
